@@ -337,8 +337,11 @@ fn do_program(st: &Setup, k: u32, idx: u64, full_sweep_len: usize, ctx: &Ctx, ac
         return
     }
     let (seq, script) = program(st, k, idx);
+    let before = acc.viols.len();
     let u = one_run(st, k, &seq, &script, st.l_big, None, acc);
-    if u.step_capped || acc.viols.len() > 4 {
+    // a program whose reference run already violates (b) gets no fault points: the
+    // prediction of (c) would be built on a broken run (replay does the same)
+    if u.step_capped || acc.viols.len() > before || acc.viols.len() > 4 {
         return
     }
     let limits: Vec<u64> = if seq.len() <= full_sweep_len {
